@@ -33,10 +33,14 @@ _BFS = {
  "C16": "path resolution exact for every symlink topology",
  "C17": "ForceBackup re-baselines a path",
 }
+_PROVED = {
+ "C01": "Proved (Props/C01.v, no axioms): for any two filesystems satisfying the laws of Spec/Laws.v, Spec/Laws2.v w.r.t. abstract views, any history of covered operations (every operation of the API except ForceBackup, on resolved names, not following a final symlink, Rename of a childless source, RemoveAll not of the root, no type change) followed by Rollback returns nil, restores the base view (root metadata and directory timestamps aside) and empties backup and bookkeeping (C01_rollback_restores_partial); Rollback from any state satisfying the invariant (C01_rollback_from_invariant). The unrestricted statement is refuted in the model (C01_full_refuted_D14 = recorded finding). The laws are hypotheses; their proof for the concrete PrefixFS-over-OS layering (Proofs/LawsOsfs*.v) is in progress, until then the tie of the concrete model to the code is what connects the theorem to the implementation. ",
+ "C02": "Proved (Props/C02.v): between operations of any covered history every original is intact in the base view or copied at the same backup path and the backup holds nothing else (C02_between_operations_partial); tryBackup never changes the base view. The statement at every primitive call inside an operation is decided by exhaustive crash-point enumeration against the oracle and the model, not by a theorem. ",
+}
 for _pid, _title in _BFS.items():
     CLAIMED[_pid] = ("Coq model of BackupFS over a POSIX filesystem model (theorems in Props/%s.v) + differential correspondence on real trees in a chroot (results, trees, primitive-call traces) + implementation oracle" % _pid,
         "Theorems in Coq about the executable Gallina model of BackupFS and its layers over a modelled Linux filesystem (state+error+halt monad ticking once per primitive call); the model is tied to the Go code on every run by running generated histories (with crash points / injected faults where the property quantifies over them) through the real code in a private chroot and through the extracted model, comparing results, whole-tree dumps, tracked state and (L2) the exact sequence of primitive calls; the property's own oracle is evaluated on the implementation for every case, failing cases are minimised and attributed to recorded findings only by the model's trigger predicates. " + _title + ".",
-        "Trusted: Coq kernel, extraction (ExtrOcamlBasic), OCaml driver, Go harness (chroot world builder, spy/fault/crash wrappers), python orchestrator (generators, oracles, shrinker). Modelled, validated by correspondence only: Linux VFS as root (errno classes, symlink walk, chown clearing setuid/setgid), os.MkdirAll/RemoveAll/Rename, path/filepath, io.Copy chunking. Where the full statement is false of the faithful model the proved theorem is named _partial and the recorded findings (known_findings.json) are its excluded triggers.",
+        _PROVED.get(_pid, "") + "Trusted: Coq kernel, extraction (ExtrOcamlBasic), OCaml driver, Go harness (chroot world builder, spy/fault/crash wrappers), python orchestrator (generators, oracles, shrinker). Modelled, validated by correspondence only: Linux VFS as root (errno classes, symlink walk, chown clearing setuid/setgid), os.MkdirAll/RemoveAll/Rename, path/filepath, io.Copy chunking. Where the full statement is false of the faithful model the proved theorem is named _partial and the recorded findings (known_findings.json) are its excluded triggers.",
         "DESIGN.md section 4 (%s)" % _pid)
 CLAIMED["C10"] = ("Coq proof (mutual exclusion => serialisability) + lock table regenerated from the Go AST on every run (kernel re-evaluates lock_discipline) + blocking-spy schedule exploration + race detector",
     "The serialisability theorem is proved once for every interleaving of any number of threads; that the Go methods follow the lock discipline is re-checked on every run on a table regenerated from the source (go/parser); dynamically, operation A is held at each of its primitive calls while B is issued (B must not progress), results are compared with the model's serial run, and a -race stress searches for data races (partial: a model cannot exhibit the Go memory model).",
